@@ -52,11 +52,9 @@ def run(ctx):
             except Exception as e:
                 ctx.fail(f"{desc}: file written by the independent writer cannot be read: {type(e).__name__}: {e}", rep, ident="file read")
                 continue
-            for style in (0, 1):
-                s = bytearray(data)
-                for i, m in enumerate(mask):
-                    if m == 0:
-                        s[i] = rng.choice([0x81, 0x8D, 0x8F, 0x90, 0x9D, 0xFF, 0x01]) if style == 0 else rng.randrange(256)
+            import sessions.c12 as c12
+            for style in (0, 1, 3, 3, 4):
+                s = bytearray(c12.scramble(rng, data[:len(mask)], mask, style)) + bytearray(data[len(mask):])
                 open(p, "wb").write(bytes(s))
                 try:
                     got = observe(p)
